@@ -19,6 +19,7 @@ import (
 	"github.com/sanonone/kektordb/pkg/core/hnsw"
 	"github.com/sanonone/kektordb/pkg/core/types"
 	"github.com/sanonone/kektordb/pkg/engine"
+	"github.com/sanonone/kektordb/pkg/verifhook"
 )
 
 const Nil = "nil"
@@ -395,7 +396,7 @@ func (r *Runner) Exec(op map[string]any) (string, error) {
 			r.clock++
 			r.clockReal[r.clock] = time.Now().UnixNano()
 			tick()
-		case "VDelete":
+		case "VDelete", "VDeleteCut":
 			if out == "ok" {
 				r.clock++
 				r.clockReal[r.clock] = time.Now().UnixNano()
@@ -461,9 +462,55 @@ func (r *Runner) exec(op map[string]any) (string, error) {
 		return res(e.VAddBatch(str(op, "n"), items))
 	case "VDelete":
 		tick()
+		done := make(chan struct{}, 4)
+		verifhook.Set(func(name string, kv []any) {
+			if name == "cascade.done" {
+				done <- struct{}{}
+			}
+		})
 		err := e.VDelete(str(op, "n"), r.id(str(op, "id")))
-		r.settle()
+		if err == nil {
+			// wait for the background cascade to settle
+			select {
+			case <-done:
+			case <-time.After(5 * time.Second):
+				verifhook.Set(nil)
+				return "", fmt.Errorf("delete cascade did not finish within 5s")
+			}
+		}
+		verifhook.Set(nil)
 		return res(err)
+	case "VDeleteCut":
+		// hold the cascade goroutine at its first instruction, shut the engine down (which
+		// cancels the cascade), then restart: recovery has to repair the dangling edges
+		tick()
+		gate := make(chan struct{})
+		verifhook.Set(func(name string, kv []any) {
+			if name == "cascade.start" {
+				<-gate
+			}
+		})
+		err := e.VDelete(str(op, "n"), r.id(str(op, "id")))
+		if err != nil {
+			close(gate)
+			verifhook.Set(nil)
+			return res(err)
+		}
+		closed := make(chan error, 1)
+		go func() { closed <- e.Close() }()
+		time.Sleep(10 * time.Millisecond)
+		close(gate)
+		cerr := <-closed
+		verifhook.Set(nil)
+		r.E = nil
+		if cerr != nil {
+			return "", fmt.Errorf("close: %w", cerr)
+		}
+		if err := r.open(); err != nil {
+			r.LastErr = err.Error()
+			return "err", nil
+		}
+		return "ok", nil
 	case "VSetMetadata":
 		return res(e.VSetMetadata(str(op, "n"), r.id(str(op, "id")), map[string]any{str(op, "k"): r.mval(str(op, "v"))}))
 	case "VReinforce":
